@@ -3,10 +3,15 @@
 Usage: tools/seed_report.py [extra-property-per-seed json]   -> seeded/RESULTS.json, seeded/RESULTS.md"""
 import json, os, subprocess, glob, re, sys
 ROOT = os.path.dirname(os.path.dirname(os.path.abspath(__file__)))
-EXTRA = {"C04-B": ["C20"], "C20-B": ["C09"], "C01-A": ["C03"], "C03-B": ["C01"]}
+EXTRA = {"C04-B": ["C20"], "C20-B": ["C09"], "C01-A": ["C03"], "C03-B": ["C01"], "C01-F": ["C02"], "C01-E": ["C04"], "C15-E": ["C01"]}
+ONLY = set(sys.argv[1:])          # optional: seed names to (re)run; the other rows are kept from the last report
 res = {}
+if ONLY and os.path.exists(os.path.join(ROOT, "seeded", "RESULTS.json")):
+    res = json.load(open(os.path.join(ROOT, "seeded", "RESULTS.json")))
 for d in sorted(glob.glob(os.path.join(ROOT, "seeded", "C*-*"))):
     name = os.path.basename(d)
+    if ONLY and name not in ONLY:
+        continue
     meta = json.load(open(os.path.join(d, "meta.json")))
     props = [meta["property"]] + EXTRA.get(name, [])
     subprocess.run(["git", "-C", "/repo", "checkout", "--", "."], check=True)
@@ -32,7 +37,7 @@ for d in sorted(glob.glob(os.path.join(ROOT, "seeded", "C*-*"))):
     print(name, outcome, {p: v["violations"][:2] for p, v in out.items()})
 json.dump(res, open(os.path.join(ROOT, "seeded", "RESULTS.json"), "w"), indent=1)
 lines = ["| seed | what it changes | outcome | failing obligations / reason |", "|---|---|---|---|"]
-for n, r in res.items():
+for n, r in sorted(res.items()):
     det = ""
     if "checks" in r:
         for p, v in r["checks"].items():
@@ -46,6 +51,9 @@ open(os.path.join(ROOT, "seeded", "RESULTS.md"), "w").write("\n".join(lines) + "
 c = sum(1 for r in res.values() if r["outcome"] == "CAUGHT")
 print(f"{c} of {len(res)} caught")
 # evidence files were overwritten by runs on modified trees: rewrite them from the unchanged tree
+touched = {p for n, r in res.items() if (not ONLY or n in ONLY) for p in r.get("checks", {})}
 for f in sorted(glob.glob(os.path.join(ROOT, "props", "C*.json"))):
     pid = os.path.basename(f)[:-5]
+    if ONLY and pid not in touched:
+        continue
     subprocess.run([os.path.join(ROOT, "check"), pid], capture_output=True, text=True, cwd=ROOT)
